@@ -300,7 +300,7 @@ Lemma compact_body_spec src esc oL i c scan start out : 0 <= start -> 0 <= i -> 
     if v =? scanError then compact_BBreak scan' start2 out2 else compact_BNext scan' (i + 1) (out2 ++ slice src start2 i)
   else compact_BNext scan' start2 out2.
 Proof.
-  intros Hs Hi Hl. unfold compact_body. fold (spc esc c). fold (lsc esc src i c).
+  intros Hs Hi Hl. unfold compact_body, spc. fold (lsc esc src i c).
   assert (G2 : (negb (esc && (bz c =? 226) && (i + 2 <? len src)) || in_idx (i + 1) (len src)) &&
                (negb (esc && (bz c =? 226) && (i + 2 <? len src) && (bz (at_ src (i + 1)) =? 128)) || in_idx (i + 2) (len src)) = true).
   { destruct (i + 2 <? len src) eqn:L2.
@@ -317,7 +317,9 @@ Proof.
   cbn [negb andb].
   destruct (start <? i) eqn:SI;
     [rewrite (slice_guard src start i Hs SI Hl) | rewrite (slice_ge src start i SI)]; cbn [negb];
-    (destruct (spc esc c); (destruct (lsc esc src i c) eqn:L; [rewrite (G3 eq_refl)|]); cbn [negb andb];
+    (* the tests for < > & one by one: their order does not matter *)
+    (destruct esc, (bz c =? 60), (bz c =? 62), (bz c =? 38); cbn [andb orb];
+     (destruct (lsc _ src i c) eqn:L; [rewrite (G3 eq_refl)|]); cbn [negb andb];
      destruct (step_fn (step scan) scan c) as [scan' v];
      (destruct (scanSkipSpace <=? v); [destruct (v =? scanError)|]);
      rewrite ?(slice_ge src (i + 1) i), ?(slice_ge src (i + 3) i) by (apply ltb_succ_false; lia);
@@ -592,6 +594,20 @@ Qed.
 
 (* ------------------------------------------------------------------ Indent: one execution of the body *)
 
+(* the bytes that the switch of Indent tells apart *)
+Inductive cclass (c : byte) : Prop :=
+| CO : opener c = true -> closer c = false -> (bz c =? 44) = false -> (bz c =? 58) = false -> isSpace c = false -> cclass c
+| CC : opener c = false -> closer c = true -> (bz c =? 44) = false -> (bz c =? 58) = false -> isSpace c = false -> cclass c
+| C44 : opener c = false -> closer c = false -> (bz c =? 44) = true -> (bz c =? 58) = false -> isSpace c = false -> cclass c
+| C58 : opener c = false -> closer c = false -> (bz c =? 44) = false -> (bz c =? 58) = true -> isSpace c = false -> cclass c
+| CD : opener c = false -> closer c = false -> (bz c =? 44) = false -> (bz c =? 58) = false -> cclass c.
+
+Lemma cclass_all c : cclass c.
+Proof.
+  destruct c; first [apply CO; reflexivity | apply CC; reflexivity | apply C44; reflexivity
+                    | apply C58; reflexivity | apply CD; reflexivity].
+Qed.
+
 Lemma indent_body_spec src ind oL c scan need depth out :
   indent_body src [] ind oL c scan need depth out =
   let '(scan', v) := step_fn (step scan) scan c in
@@ -610,16 +626,19 @@ Lemma indent_body_spec src ind oL c scan need depth out :
        else indent_BNext scan' need1 (depth1 - 1) (out1 ++ nlw ind (depth1 - 1) ++ [c]))
     else indent_BNext scan' need1 depth1 (out1 ++ [c]).
 Proof.
-  unfold indent_body. rewrite !newline_run_spec. fold (opener c). fold (closer c).
+  unfold indent_body. rewrite !newline_run_spec. unfold opener, closer.
   destruct (step_fn (step scan) scan c) as [scan' v].
   destruct (v =? scanSkipSpace); [reflexivity|]. destruct (v =? scanError); [reflexivity|].
   unfold nlw.
-  destruct (need && negb (v =? scanEndObject) && negb (v =? scanEndArray)); cbv beta iota zeta;
-    rewrite ?newline_run_spec;
-    (destruct (v =? scanContinue); [reflexivity|]); (destruct (opener c); [reflexivity|]);
-    (destruct (bz c =? 44); [rewrite <- ?app_assoc; reflexivity|]);
-    (destruct (bz c =? 58); [rewrite <- ?app_assoc; reflexivity|]);
-    (destruct (closer c); [|reflexivity]); try (destruct need); rewrite <- ?app_assoc; reflexivity.
+  (* all tests on c at once: the order of the case arms does not matter *)
+  destruct (cclass_all c) as [C1 C2 C3 C4 C5 | C1 C2 C3 C4 C5 | C1 C2 C3 C4 C5 | C1 C2 C3 C4 C5 | C1 C2 C3 C4];
+    unfold opener, closer in C1, C2;
+    apply orb_true_iff in C1 || apply orb_false_iff in C1; apply orb_true_iff in C2 || apply orb_false_iff in C2;
+    destruct (bz c =? 123), (bz c =? 91), (bz c =? 125), (bz c =? 93), (bz c =? 44), (bz c =? 58);
+    try (exfalso; clear - C1 C2 C3 C4; intuition discriminate);
+    (destruct (need && negb (v =? scanEndObject) && negb (v =? scanEndArray)); cbv beta iota zeta;
+     rewrite ?newline_run_spec; cbn [orb];
+     (destruct (v =? scanContinue); [reflexivity|]); try (destruct need); rewrite <- ?app_assoc; reflexivity).
 Qed.
 
 (* ------------------------------------------------------------------ Indent: the model, one byte *)
@@ -646,19 +665,6 @@ Proof.
   destruct (v =? scanSkipSpace); [reflexivity|]. destruct (v =? scanError); [reflexivity|].
   destruct (need && negb (v =? scanEndObject) && negb (v =? scanEndArray)); cbv beta iota zeta;
     (destruct (v =? scanContinue); [reflexivity|]); destruct c; reflexivity.
-Qed.
-
-Inductive cclass (c : byte) : Prop :=
-| CO : opener c = true -> closer c = false -> (bz c =? 44) = false -> (bz c =? 58) = false -> isSpace c = false -> cclass c
-| CC : opener c = false -> closer c = true -> (bz c =? 44) = false -> (bz c =? 58) = false -> isSpace c = false -> cclass c
-| C44 : opener c = false -> closer c = false -> (bz c =? 44) = true -> (bz c =? 58) = false -> isSpace c = false -> cclass c
-| C58 : opener c = false -> closer c = false -> (bz c =? 44) = false -> (bz c =? 58) = true -> isSpace c = false -> cclass c
-| CD : opener c = false -> closer c = false -> (bz c =? 44) = false -> (bz c =? 58) = false -> cclass c.
-
-Lemma cclass_all c : cclass c.
-Proof.
-  destruct c; first [apply CO; reflexivity | apply CC; reflexivity | apply C44; reflexivity
-                    | apply C58; reflexivity | apply CD; reflexivity].
 Qed.
 
 Lemma rev_newline ind n o : rev (newline_rev ind n o) = rev o ++ x0a :: rep_bytes n ind.
